@@ -38,6 +38,7 @@ type Scn struct {
 	Steps []Step  `json:"steps,omitempty"`
 	Draw  *DrawD  `json:"draw,omitempty"`
 	Stall *StallD `json:"stall,omitempty"`
+	Conc  *ConcD  `json:"conc,omitempty"`
 }
 
 func W(s string) Step       { return Step{K: "w", B: []byte(s)} }
@@ -400,6 +401,78 @@ func GenGrammar(rng *rand.Rand, n int, small bool) *Scn {
 	return sc
 }
 
+// Ways into and out of the alternate screen (xterm private modes 1049, 47,
+// 1047, and 1048 for the cursor).
+var altEnter = []string{"\x1b[?1049h", "\x1b[?1049h", "\x1b[?47h", "\x1b[?1047h", "\x1b[?1048h\x1b[?1047h"}
+var altLeave = []string{"\x1b[?1049l", "\x1b[?1049l", "\x1b[?47l", "\x1b[?1047l", "\x1b[?1047l\x1b[?1048l"}
+
+// GenAltResize builds a resize history on the alternate screen: the cursor
+// is brought low on the primary screen (and saved there by the switch, or by
+// DECSC), the alternate screen is entered, the terminal is resized several
+// times (heights around the saved row: shrink below it, back above it, 1,
+// larger than before) with output in between, and the primary screen is
+// returned to and written on.
+func GenAltResize(rng *rand.Rand) *Scn {
+	g := &gen{rng: rng}
+	g.cols, g.rows = 1+rng.Intn(8), 2+rng.Intn(9)
+	sc := &Scn{Kind: "alt-resize", Cols: g.cols, Rows: g.rows}
+	put := func(s string) { sc.Steps = append(sc.Steps, W(s)) }
+	if rng.Intn(4) == 0 {
+		t := 1 + rng.Intn(g.rows)
+		put(fmt.Sprintf("\x1b[%d;%dr", t, t+rng.Intn(g.rows-t+2)))
+	}
+	saved := g.rows // 1-based row the cursor is left on
+	switch rng.Intn(4) {
+	case 0: // full screen, wrap pending in the last cell
+		put(strings.Repeat("abcdefghij", (g.cols*g.rows+9)/10)[:g.cols*g.rows])
+	case 1:
+		put(strings.Repeat("x\r\n", g.rows-1+rng.Intn(3)))
+	case 2:
+		saved = g.rows - rng.Intn(2)
+		put(fmt.Sprintf("\x1b[%d;%dH", saved, 1+rng.Intn(g.cols)))
+	default:
+		saved = 1 + rng.Intn(g.rows)
+		put(fmt.Sprintf("\x1b[%d;%dH", saved, 1+rng.Intn(g.cols)))
+		put(g.text())
+	}
+	if rng.Intn(3) == 0 {
+		put("\x1b7")
+	}
+	way := rng.Intn(len(altEnter))
+	put(altEnter[way])
+	for k := rng.Intn(3); k > 0; k-- {
+		put(g.item())
+	}
+	for n := 2 + rng.Intn(4); n > 0; n-- {
+		h := []int{1, saved - 1, saved, saved + 1, g.rows, g.rows + 1 + rng.Intn(4), 1 + rng.Intn(12), 1 + rng.Intn(3)}[rng.Intn(8)]
+		if h < 1 {
+			h = 1
+		}
+		w := []int{g.cols, g.cols, 1 + rng.Intn(10), 1}[rng.Intn(4)]
+		g.cols, g.rows = w, h
+		sc.Steps = append(sc.Steps, R(w, h))
+		if rng.Intn(3) == 0 {
+			put([]string{"\x1b8", "\x1b7", "\n", "z", fmt.Sprintf("\x1b[%d;1H", h), g.item(), g.item()}[rng.Intn(7)])
+		}
+	}
+	if rng.Intn(5) > 0 {
+		if rng.Intn(4) == 0 {
+			way = rng.Intn(len(altLeave))
+		}
+		put(altLeave[way])
+	}
+	put([]string{"\x1b8", "x", "\n\n", "\x1bM", "\x1b8x"}[rng.Intn(5)])
+	if rng.Intn(2) == 0 {
+		g.cols, g.rows = g.size(false)
+		sc.Steps = append(sc.Steps, R(g.cols, g.rows))
+		put(g.text())
+	}
+	for k := rng.Intn(4); k > 0; k-- {
+		put(g.item())
+	}
+	return sc
+}
+
 var fuzzCtl = []byte("\x1b\x1b\x1b[[[]P_^X;;;::??>=<!\"$ '0123456789999hlmrABCDHJKLMPSTX@Zbcdfgnqsu\\\x07\x08\x09\x0a\x0d\x18\x9b\x9d\x90\x9c")
 
 func fuzzBytes(rng *rand.Rand, n int) []byte {
@@ -467,6 +540,8 @@ func Fixed() []*Scn {
 		f("osc52-early", 4, 2, W("\x1b]52;c;aGVsbG8=\x07")),
 		f("grow-shrink", 2, 2, W("abcd"), R(80, 24), W("\x1b[24;80Hx"), R(1, 1), W("y\n\x1bM")),
 		f("alt-resize", 4, 3, W("\x1b[?1049h"), W("abc"), R(2, 2), W("\x1b[?1049l"), W("xyz\n\n")),
+		f("alt-shrink-twice", 4, 6, W("\x1b[6;1H"), W("\x1b[?1049h"), R(4, 3), R(4, 5), W("\x1b[?1049l"), W("x")),
+		f("alt-shrink-grow", 3, 5, W("a\r\nb\r\nc\r\nd\r\ne"), W("\x1b7\x1b[?1049h"), R(3, 2), W("z\x1b8"), R(2, 1), R(5, 9), W("\x1b[?1049l\x1b8"), W("x")),
 		f("saved-shrink", 10, 8, W("\x1b[8;10H\x1b7"), R(3, 2), W("\x1b8"), W("x")),
 		f("hts-dup", 6, 2, W("\x1b[1;3H\x1bH\x1bH\x1b[1;1H"), W("\t\t\t\t"), W("\x1b[Z\x1b[9Z\x1b[0Z")),
 		f("decom", 5, 4, W("\x1b[2;3r\x1b[?6h"), W("\x1b[1;1H"), W("x\x1b[9;9H"), W("y")),
